@@ -227,3 +227,56 @@ def compare_jobs(tier, seed, env):
     for j in jobs:
         j.post = lambda res, job: judge(res, job, only_ops=("<", "<=", ">", ">=", "==", "!="))
     return jobs
+
+
+CROSS = [((150, "i32"), (300, "i32")), ((300, "i32"), (150, "i32")), ((200, "i32"), (129, "i8")), ((256, "u32"), (512, "u64")), ((65, "i32"), (200, "i32")), ((128, "u32"), (256, "u32")),
+         ((200, "i32"), (200, "i16")), ((129, "i64"), (300, "i64")), ((100, "u32"), (200, "u32")), ((127, "i32"), (255, "i16"))]
+
+
+def judge_cross(res, job):
+    kd = {r["id"]: r for r in job.records if r.get("t") == "kd"}
+    tall = {}
+    for line in job.raw:
+        p = line.split(" ")
+        if len(p) != 7 or p[0] != "C":
+            continue
+        k = kd.get(int(p[1]))
+        if not k:
+            continue
+        t = tall.setdefault(int(p[1]), {"judged": 0, "ood": 0, "nt": 0, "kinds": {}, "classes": {}, "samples": [], "viol": {}})
+        op, ah, bh, kind, r = p[2], p[3], p[4], p[5], p[6]
+        a = sval(int(ah, 16), k["bits1"], bool(k["signed1"]))
+        b = sval(int(bh, 16), k["bits2"], bool(k["signed2"]))
+        t["judged"] += 1
+        want = {"<": a < b, "<=": a <= b, ">": a > b, ">=": a >= b, "==": a == b, "!=": a != b, "r<": b < a, "r==": b == a}[op]
+        nt = a < 0 or b < 0 or abs(a).bit_length() > min(k["digits1"], k["digits2"]) or abs(b).bit_length() > min(k["digits1"], k["digits2"])
+        if kind != "VALUE" or r != ("1" if want else "0"):
+            # values above the declared digits of their own type are outside numeric_limits: not judged
+            if abs(a).bit_length() > k["digits1"] or abs(b).bit_length() > k["digits2"]:
+                t["judged"] -= 1
+                t["ood"] += 1
+                continue
+            cls = ("event:" + kind) if kind != "VALUE" else ("cross_width_comparison_wrong:" + ("wider_operand_exceeds_narrower_width" if max(abs(a).bit_length(), abs(b).bit_length()) > min(k["bits1"], k["bits2"]) - 1 else "other"))
+            n, ws = t["viol"].get(cls, (0, []))
+            if len(ws) < 4:
+                ws.append({"in": "%s %s %s" % (ah, op, bh), "exp": "1" if want else "0", "obs": kind + " " + r})
+            t["viol"][cls] = (n + 1, ws)
+        elif nt:
+            t["nt"] += 1
+    for kid, t in tall.items():
+        res.add_tally(job, kd[kid]["k"], t["judged"], t["ood"], t["nt"], t["kinds"], t["classes"], t["samples"], t["viol"])
+    res.kernels[job.config] = res.kernels.get(job.config, 0) + len(tall)
+
+
+def cross_jobs(tier, seed, env):
+    """C03 (wide part): comparisons between wide_integer types of different widths"""
+    jobs = []
+    e = dict(env, VERIF_PAIRS="1500" if tier == "quick" else "20000")
+    for i, ((d1, n1), (d2, n2)) in enumerate(CROSS):
+        d = "wide<%d,%s> cmp wide<%d,%s>" % (d1, n1, d2, n2)
+        j = core.Job("c03x-%d" % i, core.tu("c10.h", [(d, 'c10::wide_cmp<cnl::wide_integer<%d,%s>, cnl::wide_integer<%d,%s>>("%s", %d);' % (d1, NARROW[n1], d2, NARROW[n2], d, i))]), "g-san", env=e,
+                     extra_flags=["-DCNL_USE_IOSTREAMS=1"], timeout=3600, allow_fail=True)
+        j.keep_raw = True
+        j.post = judge_cross
+        jobs.append(j)
+    return jobs
